@@ -399,6 +399,9 @@ def run_one(seed, idx, tier):
         return res
     except Exception as e:
         stt, det = dutm.guarded(lambda: (_ for _ in ()).throw(e))
+        if stt == "legality":
+            res.update(status="skipped", reason="illegal-vhdl:" + str(det.get("rule")))
+            return res
         res.update(status="violation", vclass=stt, detail=det, payload=payload)
         return res
     out = dutm.guarded(lambda: simulate(cfg, design, sched, oseed, mode))
